@@ -375,6 +375,14 @@ fn run_inner(case: &SchedCase, obs: &mut dyn Observer, dir: &str, tail: Option<T
                 }
                 r.note_closed();
             }
+            (Op::Misc(k), _) => {
+                // dump / snapshot iteration with the worker wherever the schedule left it
+                let o = r.st.misc(*k);
+                if !o.is_ok() {
+                    return Err(RunErr::Viol(sviol("C11", "dump_error", format!("read-only call {} in the middle of a history: {}", k, o.brief()), case, i)));
+                }
+                outcome = o;
+            }
             (Op::Flush { cb }, _) => {
                 let (_id, out) = r.do_flush(*cb);
                 outcome = out.clone();
